@@ -166,6 +166,9 @@ def make_pool(rng, cplx):
         mat = np.array(rows, dtype=complex if cplx else float)
         add('mat', 'mat~{}~{}~{}'.format(nd, nr, ';'.join(cl(r) for r in rows)),
             odl.MatrixOperator(mat, domain=spaces[nd], range=spaces[nr]), True, False)
+    fld = spaces[2].field
+    add('scalef', 'scalef~2', odl.ScalingOperator(fld, 2.0), True, False)
+    add('powf', 'powf~2', odl.PowerOperator(fld, 2), False, False)
     for n in (2, 3):
         sp = spaces[n]
         c = rng.choice([2.0, -1.0, 0.5, 3.0])
@@ -228,6 +231,7 @@ def rand_vec(rng, n, cplx):
 
 
 def leaves_of(pool, dom, ran, want_fn):
+    # (field-domain leaves are only used by the targeted stream)
     return [i for i, l in enumerate(pool) if l.dom == dom and l.ran == ran and
             (not want_fn or l.fn)]
 
@@ -338,7 +342,7 @@ def degree(ast, pool):
     """Polynomial degree bound of the expression in x (keeps float values in range)."""
     k = ast[0]
     if k == 'L':
-        return {'pow2': 2, 'pow3': 3, 'l2sq': 2, 'constf': 0, 'zerof': 0}.get(pool[ast[1]].kind, 1)
+        return {'pow2': 2, 'pow3': 3, 'l2sq': 2, 'powf': 2, 'constf': 0, 'zerof': 0}.get(pool[ast[1]].kind, 1)
     a = degree(ast[1], pool)
     if k == 'pow':
         return a ** max(ast[2], 1)
@@ -866,6 +870,26 @@ def targeted_cases(ctx, pool, cplx):
             (('add', lf, l2), ('add', ip, ip)),
             (('s.lmul', l2, 3), ('s.lmul', ip, 2)),
         ]
+        # the same rule for `*`: (Operator… object with a field domain) * (Functional… object)
+        sf = [('L', i) for i, l in enumerate(pool) if l.kind == 'scalef'][0]
+        pf = [('L', i) for i, l in enumerate(pool) if l.kind == 'powf'][0]
+        mt = [('L', i) for i, l in enumerate(pool) if l.kind == 'mat' and
+              l.dom == l.ran == 'v{}'.format(n)][0]
+        mpairs = [
+            (('mul', sf, pf), ('mul', l2, mt)),
+            (('add', sf, pf), ('add', l2, lf)),
+            (('sub', pf, sf), ('s.add', l2, 2)),
+            (('s.lmul', pf, 2), ('s.lmul', l2, 3)),
+            (('s.rmul', pf, 2), ('s.rmul', l2, 3)),
+            (('pprod', sf, pf), ('pprod', l2, lf)),
+        ]
+        for a, b in mpairs:
+            yield {'ast': ('mul', a, b), 'cplx': cplx, 'x': rand_point(rng, n, cplx),
+                   'stream': 'targeted', 'reflected_mul': True}
+            yield {'ast': ('s.rmul', ('mul', a, b), 2), 'cplx': cplx,
+                   'x': rand_point(rng, n, cplx), 'stream': 'targeted'}
+            yield {'ast': ('sub', ('mul', a, b), ('mul', sf, b)), 'cplx': cplx,
+                   'x': rand_point(rng, n, cplx), 'stream': 'targeted'}
         for a, b in pairs:
             for root in ('add', 'sub'):
                 yield {'ast': (root, a, b), 'cplx': cplx, 'x': rand_point(rng, n, cplx),
@@ -1005,6 +1029,8 @@ def process(ctx, cases, pool, spaces, pool_ids, count=True):
                 import re
                 for cls in set(re.findall(r'[A-Za-z]+(?=\()', real['tree'])):
                     ctx.hit('class/' + cls)
+                if c.get('reflected_mul'):
+                    ctx.hit('dispatch/reflected-first-mul')
                 if c['ast'][0] == 'add' and re.match(r'OperatorSum\(Functional', real['tree']):
                     t1 = pytype(c['ast'][1], pool)
                     if t1 is not None and not t1[2]:
@@ -1080,7 +1106,7 @@ MODEL_BRANCHES = ['class/' + n for n in (
     'OperatorLeftScalarMult', 'FunctionalLeftScalarMult', 'OperatorRightScalarMult',
     'FunctionalRightScalarMult', 'OperatorLeftVectorMult', 'OperatorRightVectorMult',
     'FunctionalRightVectorMult', 'FunctionalLeftVectorMult', 'ConstantFunctional',
-    'ZeroFunctional')] + ['dispatch/reflected-first-add', 'raise/OpTypeError', 'raise/TypeError',
+    'ZeroFunctional')] + ['dispatch/reflected-first-add', 'dispatch/reflected-first-mul', 'raise/OpTypeError', 'raise/TypeError',
                           'raise/ZeroDivisionError']
 
 
